@@ -714,6 +714,43 @@ def fam_random(rng, eps=False):
                 lex_overlap=False)
 
 
+def fam_rrprio(rng):
+    """Reduce/reduce conflicts settled by production priorities: two or three
+    nonterminals derive the same string and differ in priority; the start rule
+    pairs each of them with several following terminals, partly shared.  No
+    conflict is reported, Parser builds; which reduction wins for which
+    lookahead is decided while the lookahead set of each item is walked."""
+    follow = rng.sample(["p", "q", "r", "s", "t", "u", "v", "x", "y"], rng.randint(4, 8))
+    nts = ["L", "H"] + (["M"] if rng.random() < 0.4 else [])
+    prio = {"L": None, "H": 11, "M": rng.choice([5, 11, 12])}
+    body = rng.choice([["a"], ["a", "b"]])
+
+    def mk(variant):
+        r = __import__("random").Random(rng_seed + (variant if variant == 1 else 0))
+        sets = {}
+        shared = r.sample(follow, r.randint(1, 2))
+        for n in nts:
+            extra = [f for f in follow if f not in shared and r.random() < 0.6]
+            sets[n] = shared + extra
+        alts = [Alt([n, f]) for n in nts for f in sets[n]]
+        if variant == 2:
+            alts.reverse()
+        else:
+            r.shuffle(alts)
+        rules = [Rule("S", alts)]
+        order = list(nts)
+        if variant == 2:
+            order.reverse()
+        for n in order:
+            rules.append(Rule(n, [Alt(list(body), str(prio[n]) if prio[n] else "")]))
+        names = sorted(set(follow) | set(body))
+        return GModel(rules, [Term(x, "str", x, [x]) for x in names])
+
+    rng_seed = rng.getrandbits(30)
+    return dict(family="rrprio", models=[mk(i) for i in range(3)], layout="ws",
+                lex_overlap=False)
+
+
 def fam_unprod(rng):
     """Grammars with a rule that has no recursion-terminating alternative: every
     table construction raises GrammarError ('First set empty ... infinite
@@ -759,6 +796,7 @@ FAMILIES = {
     "random": fam_random,
     "random-eps": fam_random_eps,
     "unprod": fam_unprod,
+    "rrprio": fam_rrprio,
 }
 
 
